@@ -630,7 +630,7 @@ def judge(case, hl, ml, crashed):
                 # optimize() itself changed the LP: vectors are lost when the LP is copied / loaded
                 sig = "vectors-lost-on-copy:OPT:ld%s" % prev[1].get("ld", "?")
             else:
-                sig = "lp-mismatch:%s:%s:sc%s" % (name, ",".join(diff), h2.get("sc", "?"))
+                sig = "lp-mismatch:%s:sc%s" % (name, h2.get("sc", "?"))
             res.append((sig, "after %s the accessors and the model disagree in %s\n impl : %s\n model: %s" % (
                 o[:100], diff, " ".join("%s=%s" % (d, h1.get(d)) for d in diff), " ".join("%s=%s" % (d, m1.get(d)) for d in diff)), j))
             break
@@ -698,6 +698,46 @@ def judge(case, hl, ml, crashed):
     return res
 
 
+def systematic():
+    """aimed at every entry point and every case split of the removal / replacement code: one call applied to a fixed
+    4 x 4 LP, before and after a solve, under three settings"""
+    d = dy
+    base = ["ACS 4 %s %s %s 0 %s %s %s 0 %s %s %s 0 %s %s %s 0" % (d(1), d(0), d(4), d(-2), d(0), d(3), d(3), d(-1), d(2), d(0.5), d(0), d(5)),
+            "ARS 4 %s %s 3 0 %s 1 %s 3 %s  %s %s 2 1 %s 2 %s  %s %s 4 0 %s 1 %s 2 %s 3 %s  %s %s 1 3 %s" % (
+                d(-INF), d(6), d(1), d(2), d(-1), d(-4), d(8), d(3), d(1), d(-5), d(5), d(1), d(-1), d(2), d(1), d(0), d(INF), d(2))]
+    ops = ["AR %s %s 2 1 %s 3 %s" % (d(-1), d(3), d(2), d(-1)), "AR %s %s 0" % (d(0), d(1)),
+           "ARS 2 %s %s 1 0 %s %s %s 2 2 %s 3 %s" % (d(0), d(2), d(1), d(-3), d(3), d(1), d(1)), "ARS 0",
+           "AC %s %s %s 2 0 %s 2 %s" % (d(1), d(0), d(2), d(1), d(-2)), "AC %s %s %s 0" % (d(-1), d(-1), d(1)),
+           "ACS 2 %s %s %s 1 3 %s %s %s %s 0" % (d(1), d(0), d(1), d(2), d(0), d(0), d(2)), "ACS 0",
+           "CR 1 %s %s 2 0 %s 3 %s" % (d(-2), d(2), d(1), d(1)), "CR 3 %s %s 0" % (d(0), d(0)), "CR 0 %s %s 4 3 %s 2 %s 1 %s 0 %s" % (d(-1), d(9), d(1), d(1), d(1), d(1)),
+           "CC 2 %s %s %s 2 1 %s 3 %s" % (d(2), d(0), d(1), d(3), d(-1)), "CC 0 %s %s %s 0" % (d(0), d(-2), d(2)),
+           "L1 1 %s" % d(-6), "L1 1 %s" % d(-INF), "L1 0 %s" % d(-3), "R1 1 %s" % d(9), "R1 1 %s" % d(INF), "R1 3 %s" % d(4),
+           "G1 2 %s %s" % (d(-1), d(1)), "G1 2 %s %s" % (d(2), d(2)), "G1 0 %s %s" % (d(-INF), d(7)),
+           "LV 4 %s %s %s %s" % (d(-7), d(-5), d(-6), d(-1)), "RV 4 %s %s %s %s" % (d(7), d(9), d(6), d(3)),
+           "GV 4 %s %s %s %s %s %s %s %s" % (d(-1), d(-2), d(0), d(1), d(5), d(2), d(0), d(1)),
+           "W1 2 %s" % d(-2), "W1 1 %s" % d(1), "U1 2 %s" % d(3), "U1 0 %s" % d(0), "B1 3 %s %s" % (d(1), d(1)), "B1 1 %s %s" % (d(-1), d(6)),
+           "WV 4 %s %s %s %s" % (d(-1), d(0), d(-2), d(0)), "UV 4 %s %s %s %s" % (d(5), d(4), d(3), d(6)),
+           "BV 4 %s %s %s %s %s %s %s %s" % (d(0), d(1), d(-1), d(0), d(1), d(1), d(2), d(3)),
+           "O1 0 %s" % d(-1), "O1 3 %s" % d(0), "OV 4 %s %s %s %s" % (d(2), d(-1), d(0), d(1)),
+           "E 0 0 %s" % d(5), "E 0 1 %s" % d(7), "E 0 0 %s" % d(0), "E 2 2 %s" % d(1e-17), "E 1 0 %s" % d(-1e-16), "E 3 0 %s" % d(0),
+           "RR 0", "RR 1", "RR 3", "RC 0", "RC 2", "RC 3",
+           "RRP 4 -1 0 0 0", "RRP 4 0 -1 9 -5", "RRP 4 -1 -1 -1 -1", "RRP 4 0 1 2 3", "RRP 4 7 7 -3 7",
+           "RCP 4 -1 0 0 0", "RCP 4 0 -1 9 -5", "RCP 4 -1 -1 -1 -1", "RCP 4 0 1 2 3", "RCP 4 7 7 -3 7",
+           "RRI 2 1 3 0", "RRI 2 3 1 1", "RRI 0 1", "RRI 2 2 2 1", "RRI 4 0 1 2 3 1",
+           "RCI 2 1 3 0", "RCI 2 3 1 1", "RCI 0 1", "RCI 2 2 2 1", "RCI 4 0 1 2 3 1",
+           "RRG 0 1 0", "RRG 3 3 1", "RRG 1 2 1", "RRG 0 3 1", "RCG 0 1 0", "RCG 3 3 1", "RCG 1 2 1", "RCG 0 3 1",
+           "CL", "SS 1", "SS -1", "GB", "SB 0", "SB 1", "CB"]
+    grow = ["AR %s %s 2 1 %s 5 %s" % (d(0), d(3), d(1), d(2)), "ARS 1 %s %s 1 4 %s" % (d(0), d(3), d(1)),
+            "AC %s %s %s 2 0 %s 6 %s" % (d(1), d(0), d(2), d(1), d(-2)), "ACS 1 %s %s %s 1 4 %s" % (d(1), d(0), d(2), d(1))]
+    cases = []
+    for st in ((0, 0, 0, 0, 1), (2, 1, 1, 0, 1), (3, 0, 3, 2, -1), (6, 1, 0, 1, -1)):
+        sd = dict(zip(("scaler", "persist", "simplifier", "rep", "sense"), st))
+        for pre in ([], ["OPT"]):
+            for o in ops + (grow if not (pre and st[1] == 1 and st[0] != 0) else []):
+                cases.append({"set": sd, "ops": base + pre + [" ".join(o.split()), "OPT"], "family": "systematic"})
+    return cases
+
+
 def main():
     ck = vlib.Check("C06", "proof")
     proved = ck.prove()
@@ -724,8 +764,9 @@ def main():
             for f in sorted(os.listdir(cdir)):
                 if f.endswith(".json"):
                     c = json.load(open(os.path.join(cdir, f)))
-                    c["family"] = "corpus:" + f
+                    c = {"set": c["set"], "ops": c["ops"], "family": "corpus:" + f}
                     cases.append(c)
+        cases += systematic()
         ncases, nops = (2000, 25) if ck.tier == "quick" else (30000, 80)
         for c in range(ncases):
             wb = ck.rng.random() < 0.12
